@@ -66,3 +66,12 @@ package utils
 //@ func utils.TMarshal -> data, err
 //@ trusted thrift binary codec (github.com/cloudwego/frugal); content correctness is the wal part of C11
 //@ assigns nothing
+//
+//@ func utils.Decompress -> err
+//@ props C11
+//@ trusted s2 (github.com/klauspost/compress) through io.Copy: inverse of Compress on what Compress produced; reads src to the end, appends to dst
+//@ requires tag(src) == tagof(*bytes.Reader) && tag(dst) == tagof(*bytes.Buffer)
+//@ assigns BufC, BufStore, RdPos
+//@ ensures err == nil ==> BufC == store(old(BufC), ref(unbox(*bytes.Buffer, dst)), old(BufC)[ref(unbox(*bytes.Buffer, dst))] + s2d(RdData[ref(unbox(*bytes.Reader, src))][old(RdPos)[ref(unbox(*bytes.Reader, src))] : len(RdData[ref(unbox(*bytes.Reader, src))])]))
+//@ ensures err != nil ==> BufC == old(BufC)
+//@ ensures BufStore == store(old(BufStore), ref(unbox(*bytes.Buffer, dst)), BufStore[ref(unbox(*bytes.Buffer, dst))])
